@@ -65,6 +65,7 @@ fn resolver_world(table: &[(String, Vec<String>)]) -> WorldSpec {
         svc: sx::tagged("svc", vec![sx::xs("R"), sx::xs("resolver"), sx::xs("1"), sx::xs("http://r/"), sx::list(vec![sx::atom("ifaces")])]),
         resolver: Some(table.to_vec()),
         up: false,
+        seq: false,
     }
 }
 
@@ -323,6 +324,15 @@ fn group_end(b: &[u8], from: usize, single: bool) -> Option<usize> {
     }
 }
 
+/// the greeting an upgrading `org.example.up.Start` call asks the service to write first
+fn greeting_len(frames: &[Vec<u8>]) -> usize {
+    frames
+        .last()
+        .and_then(|f| serde_json::from_slice::<Value>(f).ok())
+        .and_then(|v| v.get("parameters").and_then(|p| p.get("greeting")).and_then(|g| g.as_u64()))
+        .unwrap_or(0) as usize
+}
+
 fn sentinel_frame(nonce: &str) -> Vec<u8> {
     serde_json::to_vec(&json!({"method": format!("{}.Run", SENTINEL_IFACE),
         "parameters": {"script": [{"op": "reply", "p": {"sentinel": nonce}}], "token": "sentinel"}}))
@@ -431,13 +441,18 @@ fn drive<W: Write>(
             }
             if ends_upgraded && !timed_out && !coll.is_eof() {
                 boundary = Some(pos);
-                if let Some(chunks) = payload {
+                // the service may speak first: the client sends nothing before the greeting is there
+                let greet = greeting_len(frames);
+                if greet > 0 && !coll.wait(Duration::from_millis(1500), |b| b.len() >= pos + greet) {
+                    timed_out = !coll.is_eof();
+                }
+                if let (Some(chunks), false) = (payload, timed_out) {
                     let mut sent = 0usize;
                     for c in chunks {
                         write(w, c);
                         sent += c.len();
                         // the echo service answers byte for byte
-                        let want = pos + sent;
+                        let want = pos + greet + sent;
                         coll.wait(Duration::from_millis(400), |b| b.len() >= want);
                     }
                 }
@@ -487,12 +502,16 @@ fn drive<W: Write>(
                     pos += b[pos..].iter().position(|x| *x == 0).unwrap() + 1;
                 }
                 boundary = Some(pos);
-                if let Some(chunks) = payload {
+                let greet = greeting_len(frames);
+                if greet > 0 && !coll.wait(Duration::from_millis(1500), |b| b.len() >= pos + greet) {
+                    timed_out = !coll.is_eof();
+                }
+                if let (Some(chunks), false) = (payload, timed_out) {
                     let mut sent = 0usize;
                     for c in chunks {
                         write(w, c);
                         sent += c.len();
-                        let want_len = pos + sent;
+                        let want_len = pos + greet + sent;
                         coll.wait(Duration::from_millis(400), |b| b.len() >= want_len);
                     }
                 }
@@ -502,8 +521,8 @@ fn drive<W: Write>(
         }
         // no sentinel possible: when the payload went out after the upgrade was acknowledged the echo
         // service answers byte for byte, so the length to wait for is known; then quiescence
-        if let (Some(b0), Some(chunks), false) = (boundary, payload.as_ref(), pipeline_payload) {
-            let want_len = b0 + chunks.iter().map(|c| c.len()).sum::<usize>();
+        if let (Some(b0), Some(chunks), false, false) = (boundary, payload.as_ref(), pipeline_payload, timed_out) {
+            let want_len = b0 + greeting_len(frames) + chunks.iter().map(|c| c.len()).sum::<usize>();
             coll.wait(STEP_WAIT, |b| b.len() >= want_len);
         }
         coll.settle(Duration::from_millis(150), STEP_WAIT);
@@ -993,7 +1012,7 @@ fn run_proxy(ctx: &Ctx, l: &[Sx]) -> Sx {
 fn run_raceprobe(ctx: &Ctx, l: &[Sx]) -> Sx {
     let n = l[1].as_usize().unwrap();
     let sub = Subst::new(ctx, "r");
-    let w = WorldSpec { svc: wire::svc_cfg("race", &[], false).sx, resolver: None, up: true };
+    let w = WorldSpec { svc: wire::svc_cfg("race", &[], false).sx, resolver: None, up: true, seq: false };
     let addr = service_address(&sub, 0);
     let h = spawn_service(&w, &addr);
     let table = vec![("org.example.abort".to_string(), vec![addr.clone()])];
@@ -1035,7 +1054,7 @@ fn run_raceprobe(ctx: &Ctx, l: &[Sx]) -> Sx {
 fn run_closeprobe(ctx: &Ctx, l: &[Sx]) -> Sx {
     let n = l[1].as_usize().unwrap();
     let sub = Subst::new(ctx, "q");
-    let w = WorldSpec { svc: wire::svc_cfg("close", &[("org.example.a", "a")], false).sx, resolver: None, up: false };
+    let w = WorldSpec { svc: wire::svc_cfg("close", &[("org.example.a", "a")], false).sx, resolver: None, up: false, seq: false };
     std::fs::write(format!("{}/spec", sub.dir), w.to_sx().render() + "\n").unwrap();
     let mut cut = 0;
     for i in 0..n {
@@ -1107,7 +1126,8 @@ fn gen_world(rng: &mut Rng) -> GenWorld {
     let mut rtable: Vec<(String, Vec<String>)> = Vec::new();
     let mut scripts = Vec::new();
     for k in 0..n {
-        worlds.push(WorldSpec { svc: with_sentinel(&cfgs[k]), resolver: None, up: k == 0 });
+        // one service in four is a single-threaded server (one connection at a time)
+        worlds.push(WorldSpec { svc: with_sentinel(&cfgs[k]), resolver: None, up: k == 0, seq: rng.chance(1, 4) });
         for s in &cfgs[k].scripts {
             rtable.push((s.clone(), vec![format!("unix:%D/s{}.sock", k)]));
             scripts.push((s.clone(), k));
@@ -1304,6 +1324,21 @@ fn up_frame() -> Vec<u8> {
     serde_json::to_vec(&json!({"method":"org.example.up.Start","upgrade":true})).unwrap()
 }
 
+/// an upgrading call after which the SERVICE speaks first: a greeting whose length is (around) a multiple
+/// of the 8 KiB copy buffers, with a line feed somewhere in its last KiB (the bridge's stdout is line buffered)
+fn up_frame_greeting(rng: &mut Rng) -> Vec<u8> {
+    let n = match rng.below(6) {
+        0 => 5usize,
+        1 => 300,
+        _ => {
+            let k = rng.range(1, 3);
+            (8192 * k as i64 + *rng.pick(&[-1i64, 0, 0, 0, 1])) as usize
+        }
+    };
+    let lf_back = *rng.pick(&[0usize, 2, 500, 1022]);
+    serde_json::to_vec(&json!({"method":"org.example.up.Start","upgrade":true,"parameters":{"greeting":n,"lf_back":lf_back}})).unwrap()
+}
+
 fn gen_payload(rng: &mut Rng) -> Vec<Vec<u8>> {
     let n = rng.range(1, 3);
     (0..n)
@@ -1427,7 +1462,12 @@ impl Suite for ProxySuite {
                     !o && !more
                 });
                 frames.truncate(3);
-                frames.push(up_frame());
+                if rng.chance(1, 3) {
+                    frames.push(up_frame_greeting(&mut rng));
+                    tags.push("upgrade:service-speaks-first".into());
+                } else {
+                    frames.push(up_frame());
+                }
                 payload = Some(gen_payload(&mut rng));
                 tags.push("upgrade".into());
                 tags.push(format!("upgrade:{}", client));
